@@ -2467,6 +2467,11 @@ class RlWriter:
             for col_idx, cell in enumerate(row.children):
                 if cell.colspan > 1:
                     self._adjust_colspan_cell_widths(cell, min_widths, max_widths, col_idx)
+        # a column of empty cells still needs room for the cell padding
+        # (reportlab refuses to lay out a cell with a negative inner width)
+        floor = 2 * pdfstyles.CELL_PADDING + 1
+        min_widths = [max(width, floor) for width in min_widths]
+        max_widths = [max(width, floor) for width in max_widths]
         return min_widths, max_widths
 
     def getTableSize(self, table):
